@@ -129,7 +129,13 @@ def build_case(spec, compliance=None):
         el = sysbuild.make_actuator(spec["actuator"], inter)
     elif "load" in spec:
         el = sysbuild.make_load(spec["load"], bodies[-1])
-    system.add(el)
+    if spec.get("law_first") and inter is not None and "element" in spec and spec["element"]["type"] in ("Spring", "KelvinVoigt"):
+        # the force law is added to the System before the interaction it acts on (the laws assemble their interaction
+        # themselves, so either order is supported for Spring / KelvinVoigtElement)
+        system.remove(inter)
+        system.add(el, inter)
+    else:
+        system.add(el)
     sysbuild.assemble(system)
     return system, el, inter
 
